@@ -21,7 +21,10 @@ fn main() {
         "C02" => bprops::run("C02", replay),
         "C03" => bprops::run("C03", replay),
         "C04" => bprops::run("C04", replay),
+        "C05" => bprops::run("C05", replay),
         "C06" => bprops::run("C06", replay),
+        "C07" => bprops::run("C07", replay),
+        "C08" => bprops::run("C08", replay),
         "C11" => bprops::run("C11", replay),
         "C16" => bprops::run("C16", replay),
         "count" => {
